@@ -114,7 +114,7 @@ def _drop_ops(spec, ti, drop):
     return s
 
 
-def minimise_spec(rep, accept=None, max_tests=60, max_wall=150.0):
+def minimise_spec(rep, accept=None, max_tests=60, max_wall=75.0, runner=None):
     import time
     want = rep["violation"]["sig"]
     tests = [0]
@@ -125,7 +125,10 @@ def minimise_spec(rep, accept=None, max_tests=60, max_wall=150.0):
             return None
         tests[0] += 1
         try:
-            hist, viol, _ = run_spec(spec, accept, timeout=300)
+            if runner is not None:
+                hist, viol, _ = runner(spec)
+            else:
+                hist, viol, _ = run_spec(spec, accept, timeout=300)
         except Exception:
             return None
         if any(v["sig"] == want for v in viol):
